@@ -10,6 +10,9 @@ RULE = ("generated programs: (a) restricted grammar of the property's second sen
         "each stage under catch_unwind. non-trivial = distinct program whose bytecode ran and reproduced the value")
 ASSUMPTIONS = [
     "value equality is structural equality of the canonical observations (kind, shape, elements; floats by bit pattern)",
+    "link checks (Model/BytecodeLinkJ.v): the emitted file (hex) must be encode_program (lower ...) of the abstract program rebuilt from its own "
+    "constants and instructions whenever all its constants are of a modelled kind; the printed instruction list must be the lowering of the "
+    "compiled plan whenever every step of the plan dump is structured with one output (or a define); otherwise the check is not applied",
     "the plan's dataflow is read back from the Debug text of the steps (see C19)",
 ]
 TRIVIAL_TAGS = ["interpreter-rejects", "compile-error", "run-error"]
@@ -177,15 +180,15 @@ def generate(tier, rng):
         stmts = lines
         src = "\n".join(stmts)
         fl = flags_of(stmts, has_assign)
-        yield dict(sx=sx(["bc", 1, fl, q(src)]), impl=dict(src=src, plan=1), tags=dict(stream=stream, assign=int(has_assign)))
+        yield dict(sx=sx(["bc", 1, fl, q(src)]), impl=dict(src=src, plan=1, hex=True), tags=dict(stream=stream, assign=int(has_assign)))
         if i % 4 == 0:
             # the same program once more, additionally re-evaluating the loaded program (informative, see Model/Bytecode.v)
-            yield dict(sx=sx(["bc", 1, fl + ["restep"], q(src)]), impl=dict(src=src, plan=1, restep=1), tags=dict(stream=stream + "+restep", assign=int(has_assign)))
+            yield dict(sx=sx(["bc", 1, fl + ["restep"], q(src)]), impl=dict(src=src, plan=1, restep=1, hex=True), tags=dict(stream=stream + "+restep", assign=int(has_assign)))
     reps = 1 if tier == "quick" else 5
     for _ in range(reps):
         for src in WIDE:
             fl = flags_of([src], False)
-            yield dict(sx=sx(["bc", 0, fl, q(src)]), impl=dict(src=src, plan=1), tags=dict(stream="wide"))
+            yield dict(sx=sx(["bc", 0, fl, q(src)]), impl=dict(src=src, plan=1, hex=True), tags=dict(stream="wide"))
 
 
 def shrink(case):
